@@ -152,6 +152,30 @@ impl RunSched {
             self.burst_left -= 1;
             return self.pick_external(v, &ext);
         }
+        let spurious = !v.woken && self.p.spurious_16 > 0 && self.rng.chance(self.p.spurious_16, 16);
+        if spurious {
+            return Action::Poll;
+        }
+        let want_external = match self.p.policy {
+            Policy::PollEager => !v.woken,
+            Policy::ExternalFirst => true,
+            Policy::PollLazy => {
+                let stay = if self.p.multi_drop { 13 } else { 11 };
+                !v.woken || self.rng.chance(stay, 16)
+            }
+            Policy::Uniform => {
+                if v.woken && self.rng.below(ext.len() + 1) == 0 {
+                    false
+                } else {
+                    !(v.woken && self.rng.chance(1, 2))
+                }
+            }
+        };
+        if !want_external {
+            return Action::Poll;
+        }
+        // a burst starts where the policy would have delivered one event anyway (so an
+        // eager poller first accumulates everything that can be outstanding)
         if self.p.burst_64 > 0 && ext.len() >= 2 && self.rng.chance(self.p.burst_64, 64) {
             self.burst_left = match self.rng.below(3) {
                 0 => ext.len() - 1,
@@ -159,39 +183,8 @@ impl RunSched {
                 _ => self.rng.below(ext.len()),
             };
             self.fired_burst = true;
-            return self.pick_external(v, &ext);
         }
-        let spurious = !v.woken && self.p.spurious_16 > 0 && self.rng.chance(self.p.spurious_16, 16);
-        if spurious {
-            return Action::Poll;
-        }
-        match self.p.policy {
-            Policy::PollEager => {
-                if v.woken {
-                    Action::Poll
-                } else {
-                    self.pick_external(v, &ext)
-                }
-            }
-            Policy::ExternalFirst => self.pick_external(v, &ext),
-            Policy::PollLazy => {
-                let stay = if self.p.multi_drop { 13 } else { 11 };
-                if !v.woken || self.rng.chance(stay, 16) {
-                    self.pick_external(v, &ext)
-                } else {
-                    Action::Poll
-                }
-            }
-            Policy::Uniform => {
-                if v.woken && self.rng.below(ext.len() + 1) == 0 {
-                    Action::Poll
-                } else if v.woken && self.rng.chance(1, 2) {
-                    Action::Poll
-                } else {
-                    self.pick_external(v, &ext)
-                }
-            }
-        }
+        self.pick_external(v, &ext)
     }
 }
 
